@@ -171,3 +171,7 @@ Proof.
     rewrite El. rewrite firstn_app_len. reflexivity. }
   rewrite (G v dd), (G v' dd') by assumption. reflexivity.
 Qed.
+
+(* the date written into the tags is the civil date of floor(epoch / 86400) days after 1970-01-01 (UTC) *)
+Lemma date_of_unix_utc e d : date_of_unix e = Some d -> d = civil_from_days (e / 86400).
+Proof. unfold date_of_unix. destruct (_ && _)%bool; [intros H; injection H as <-; reflexivity | discriminate]. Qed.
